@@ -263,12 +263,15 @@ func TestVerif_C11_BrokerStages(t *testing.T) {
 	}
 	shard, shards := kit.Shard()
 	worlds := map[int]*c11World{}
-	mine := 0
+	mine, mineK1 := 0, 0 // mineK1: single-device cases skipped at the header stage that fell to this shard
 	for _, sc := range cases {
 		if sc.Group%shards != shard {
 			continue
 		}
 		mine++
+		if sc.K == 1 && sc.Hdr == "hmac-header" && (sc.Pattern[0] == c11HashErr || sc.Pattern[0] == c11SaltDown) {
+			mineK1++
+		}
 		w := worlds[sc.K]
 		if w == nil {
 			w = c11Boot(t, r, sc.K, "")
@@ -297,7 +300,15 @@ func TestVerif_C11_BrokerStages(t *testing.T) {
 	r.Require("request_accepted_by_other_device_while_one_was_skipped", 100)
 	r.Require("refused_after_devices_skipped_at_header_stage", 300)
 	r.Require("response_refused_after_devices_skipped_at_header_stage", 50)
-	r.Require("single_device_skipped_at_header_stage", 30)
+	if mineK1 > 0 || shards == 1 {
+		// these cases fall into few case groups: every one that fell to this shard must have been judged,
+		// a shard that got none of them has nothing to show here
+		want := int64(mineK1)
+		if shards == 1 && want < 30 {
+			want = 30
+		}
+		r.Require("single_device_skipped_at_header_stage", want)
+	}
 	r.Require("request_phase_no_device_accepted", 500)
 	r.Require("blocked_before_backend_with_error", 500)
 	r.Require("response_phase_no_device_accepted", 100)
